@@ -116,6 +116,11 @@ func (o FileOptions) New(fd *descriptorpb.FileDescriptorProto, r Resolver) (prot
 		if !strings.HasPrefix(fd.GetName(), "cmd/protoc-gen-go/testdata/") {
 			return nil, errors.New("use of edition %v not yet supported by the Go Protobuf runtime", fd.GetEdition())
 		}
+		// Even test data can only use editions for which feature defaults
+		// can be resolved; anything else would crash further down.
+		if !isResolvableEdition(fd.GetEdition()) {
+			return nil, errors.New("use of edition %v not supported by the Go Protobuf runtime", fd.GetEdition())
+		}
 	}
 	f.L1.Package = protoreflect.FullName(fd.GetPackage())
 	if !f.L1.Package.IsValid() && f.L1.Package != "" {
